@@ -458,7 +458,7 @@ func Run(c *engine.Ctx) {
 	c.Add("traces_validated_against_impl", evals)
 	c.Cov["layouts"] = len(ls)
 	c.Cov["libdefaults_key_spellings"] = len(cases)
-	c.Cov["rule"] = "libdefaults: every (key, spelling) x 8 layouts, all ordered key pairs; realms: 0-4 realms x 0-4 servers per kind with/without port, final marker at each position, nested block kinds at each position, x layouts; structurally invalid files; ResolveRealm: every hostname of depth <=5 over {a,b} (with/without trailing dot) x every subset of an 8-key mapping universe; GetKDCs/GetKpasswdServers: every realm x every outcome of the random ordering. distinct = cells whose parsed value / answer equalled the model"
+	c.Cov["rule"] = "libdefaults: every (key, spelling) x 8 layouts (durations: 18 sample spellings + boundary grids: 15 second counts, h:m and h:m:s with hours {0..999 at 14 boundaries} x minutes/seconds with/without leading zero, every non-empty subset of d/h/m/s units x values {1,10,60,100}), all ordered key pairs; realms: 0-4 realms x 0-4 servers per kind with/without port, final marker at each position, nested block kinds at each position, x layouts; structurally invalid files; ResolveRealm: every hostname of depth <=5 over {a,b} (with/without trailing dot) x every subset of an 8-key mapping universe; GetKDCs/GetKpasswdServers: every realm x every outcome of the random ordering. distinct = cells whose parsed value / answer equalled the model"
 }
 
 func realmsCheck(c *engine.Ctx, ls []layout, evals *int64) {
